@@ -120,6 +120,9 @@ type Engine struct {
 	shared  map[*ssa.Global]*value // globals of SharedInit packages (initialised once)
 	sharedOnce sync.Once
 	sharedErr string
+	pureOnce  sync.Once
+	InitSkipped []string // calls replaced by zero values while initialising shared packages
+	pureSet   map[*ssa.Function]bool
 }
 
 // pathRun is the state of one path execution.
@@ -145,6 +148,8 @@ type pathRun struct {
 	sched   *scheduler
 	vfsOps  int
 	mutexes map[*value]*muState
+	locals  []*localCtx
+	known   map[*Term]bool // terms assumed on the global path (syntactic pruning)
 	wgs     map[*value]*wgState
 }
 
@@ -167,6 +172,10 @@ func (r *pathRun) setModel(m map[string]uint64) {
 }
 
 func (r *pathRun) assume(t *Term) {
+	if r.known == nil {
+		r.known = map[*Term]bool{}
+	}
+	r.known[t] = true
 	r.pc = append(r.pc, t)
 	r.solver.Assert(t)
 }
@@ -185,6 +194,9 @@ func (r *pathRun) check(extra ...*Term) (string, map[string]uint64) {
 func (r *pathRun) decide(cond *Term, why string) bool {
 	if cond.IsConst() {
 		return cond.Val != 0
+	}
+	if lc := r.local(); lc != nil {
+		return r.localDecide(lc, cond, why)
 	}
 	if r.pos < len(r.prefix) {
 		d := r.prefix[r.pos]
@@ -229,6 +241,9 @@ func (r *pathRun) decide(cond *Term, why string) bool {
 // concretize forks over the feasible values of a symbolic scalar.
 func (r *pathRun) concretize(x sym, why string) value {
 	t := x.t
+	if lc := r.local(); lc != nil {
+		return r.localConcretize(lc, x, why)
+	}
 	for {
 		if r.pos < len(r.prefix) {
 			d := r.prefix[r.pos]
@@ -559,6 +574,9 @@ func (e *Engine) recordFinding(r *pathRun, label, exc string, model map[string]u
 // assertion implements vpAssert.
 func (r *pathRun) assertion(label string, cond value) {
 	c := r.ctx
+	if r.local() != nil {
+		r.abort("unsupported", "vpAssert inside a summarised (pure) function")
+	}
 	var ct *Term
 	switch cv := cond.(type) {
 	case bool:
@@ -634,6 +652,25 @@ func (r *pathRun) assertion(label string, cond value) {
 
 // assumption implements vpAssume.
 func (r *pathRun) assumption(cond value) {
+	if lc := r.local(); lc != nil {
+		switch cv := cond.(type) {
+		case bool:
+			if !cv {
+				r.abort("assume-false", "")
+			}
+		case sym:
+			res, _ := r.solver.Check([]*Term{cv.t}, nil)
+			if !r.feasible(res, "local-assume") {
+				r.abort("assume-false", "")
+			}
+			lc.conds = append(lc.conds, cv.t)
+			r.solver.Assert(cv.t)
+			if lc.modelOK && r.eval(cv.t) == 0 {
+				lc.modelOK = false
+			}
+		}
+		return
+	}
 	var ct *Term
 	switch cv := cond.(type) {
 	case bool:
@@ -676,4 +713,13 @@ func (res *Result) SortedFuncs() []string {
 
 func isPleaseFunc(name string) bool {
 	return strings.Contains(name, "github.com/thought-machine/please/")
+}
+
+// Warnings returns problems met while initialising shared packages or options.
+func (e *Engine) Warnings() string { return e.sharedErr }
+
+func (e *Engine) initSkipped(fn, why string) {
+	if len(e.InitSkipped) < 200 {
+		e.InitSkipped = append(e.InitSkipped, fn)
+	}
 }
